@@ -14,6 +14,25 @@ REPLAYS = os.environ.get('VERIF_REPLAY_DIR') or os.path.join(VERIF, 'replays')
 OVERFLOW_MSGS = ('possible arithmetic underflow/overflow', 'possible division by zero', 'possible bit shift underflow/overflow')
 
 
+_SKEL = None
+
+
+def _restructured(r, d):
+    """has the function the diagnostic is located in a different control-flow skeleton than the reference?"""
+    global _SKEL
+    if os.environ.get('VERIF_SKELETON_GATE', '1') == '0':
+        return False
+    if _SKEL is None:
+        try:
+            _SKEL = json.load(open(os.path.join(os.path.dirname(os.path.abspath(__file__)), 'skeletons.json')))
+        except Exception:
+            _SKEL = {}
+    m = ((getattr(r, 'meta', None) or {}).get('functions') or {}).get(d.fn)
+    if not m or d.fn not in _SKEL:
+        return False
+    return m.get('skeleton') != _SKEL[d.fn]
+
+
 def _diag_key(d, mode):
     if d.message.startswith('postcondition not satisfied') and d.clause:
         return {'fn': d.fn, 'kind': 'clause', 'clause': d.clause, 'expr': d.expr}
@@ -230,12 +249,38 @@ def conclude(pid, spec, results, tier, seed, wall, kani=(), extra_viol=()):
         # a definite verdict of a unit that ran (or a replayed failing input) stands even if another unit is undecided
         os.makedirs(REPLAYS, exist_ok=True)
         import replay
+        n_reported = 0
+        kept = []
+
+        def _prio(v):
+            # within a macro-generated family the same code fails for every operand type, but a failing input
+            # exists only for the types that can reach the faulty path: search the widest types first
+            fn = str((v[1].fn if v[1] is not None else '') or '')
+            return 0 if 'i128' in fn else 1 if ('u64' in fn or 'i64' in fn) else 2 if 'for Decimal' in fn else 3
+        violations = sorted(violations, key=_prio)
         for i, (r, d, key) in enumerate(violations):
             path = replay.make_replay(pid, r, d, key, tier, seed, i)
-            replay_paths.append(path)
             found = replay.has_input(path)
+            if not found and _restructured(r, d):
+                # The function no longer has the control-flow structure its proof script (loop contracts woven by
+                # ordinal, entry hints) was written and validated for: the failed obligation is not "an obligation
+                # that passed on the unchanged tree and now fails" but a proof that no longer applies.  Without a
+                # failing input on the real code this is a failed proof, i.e. undecided - never an alarm.
+                undecided.append('unit %s/%s: %s was restructured (control-flow skeleton differs from lib/skeletons.json); '
+                                 'obligation %s fails under the old proof script and no failing input was found on the real crate'
+                                 % (r.unit, r.mode, d.fn, key.get('clause') or key.get('kind')))
+                try:
+                    os.unlink(path)
+                except OSError:
+                    pass
+                continue
+            replay_paths.append(path)
+            n_reported += 1
+            kept.append((r, d, key))
             out_lines.append('VIOLATION property=%s replay=%s%s' % (pid, path, '' if found else ' no-failing-input-found'))
-        rc = 1
+        violations = kept
+        if n_reported:
+            rc = 1
     for k, h, r in kani_viol:
         os.makedirs(REPLAYS, exist_ok=True)
         path = os.path.join(REPLAYS, '%s-kani-%s.json' % (pid, h))
